@@ -36,6 +36,7 @@ import (
 	"strings"
 	"sync"
 
+	"github.com/emmansun/gmsm/smx509"
 	"verifharness/internal/hx"
 	"verifharness/internal/pki"
 )
@@ -149,6 +150,9 @@ type Entry struct {
 	ID    []byte
 	MS    []byte // copy of the master secret at the time of the call
 	Conn  int
+	// Decl != "" : not a cache operation but a declaration inserted by an observer (C11: the
+	// storage of a session object seen for the first time, of a connection that completed)
+	Decl string
 }
 
 // Rec wraps a cache and records every operation.
@@ -161,6 +165,11 @@ type Rec[S comparable] struct {
 	wiped func(S) bool
 	info  func(S) (id, ms []byte)
 	Cur   int // index of the running connection (tag for the entries)
+	// observers (optional, C11): OnNew is called when a session pointer is seen for the first
+	// time and may return a declaration to be logged before the operation; AfterOp is called
+	// after the inner operation with the index of its Log entry. Both run under the lock.
+	OnNew   func(id int, s S) string
+	AfterOp func(idx int)
 }
 
 func NewRec[S comparable](inner Cache[S], wiped func(S) bool, info func(S) (id, ms []byte)) *Rec[S] {
@@ -177,7 +186,19 @@ func (r *Rec[S]) ident(s S) int {
 	}
 	r.Objs = append(r.Objs, s)
 	r.objs[s] = len(r.Objs)
+	if r.OnNew != nil {
+		if d := r.OnNew(len(r.Objs), s); d != "" {
+			r.Log = append(r.Log, Entry{Decl: d, Conn: r.Cur})
+		}
+	}
 	return len(r.Objs)
+}
+
+// Note logs a declaration (see Entry.Decl).
+func (r *Rec[S]) Note(decl string) {
+	r.mu.Lock()
+	defer r.mu.Unlock()
+	r.Log = append(r.Log, Entry{Decl: decl, Conn: r.Cur})
 }
 
 func (r *Rec[S]) Get(k string) (S, bool) {
@@ -191,6 +212,9 @@ func (r *Rec[S]) Get(k string) (S, bool) {
 		e.ID, e.MS = append([]byte(nil), id...), append([]byte(nil), ms...)
 	}
 	r.Log = append(r.Log, e)
+	if r.AfterOp != nil {
+		r.AfterOp(len(r.Log) - 1)
+	}
 	return s, ok
 }
 
@@ -203,7 +227,11 @@ func (r *Rec[S]) Put(k string, s S) {
 		e.ID, e.MS = append([]byte(nil), id...), append([]byte(nil), ms...)
 	}
 	r.Log = append(r.Log, e)
+	idx := len(r.Log) - 1
 	r.Inner.Put(k, s)
+	if r.AfterOp != nil {
+		r.AfterOp(idx)
+	}
 }
 
 // WipedObjs lists the identities of recorded sessions whose master secret is wiped now.
@@ -235,6 +263,9 @@ type HS struct {
 	SPeerDER  []byte // first certificate of the server's ConnectionState().PeerCertificates
 	SVerified bool   // the server's ConnectionState().VerifiedChains is non-empty
 	VPC, VC   string // what the server's VerifyPeerCertificate / VerifyConnection callbacks saw: "x" = not called, else a client identity
+	// CPeer reads the peer certificates the client connection reports NOW (public API); the
+	// connection object stays alive as long as the closure does (C11: open connections)
+	CPeer func() []*smx509.Certificate
 }
 
 // Ops is the per-stack part.
@@ -300,6 +331,8 @@ type Runner[S comparable] struct {
 	junk   int
 	Outs   []Out
 	NoCtl  bool // skip the cache-less control handshake
+	// OnHS (optional, C11) is called after every real handshake of the history
+	OnHS func(i int, h HS)
 }
 
 func NewRunner[S comparable](ops Ops[S], ccap, scap int, seed uint64) *Runner[S] {
@@ -330,6 +363,7 @@ func why(e error) string {
 	}
 	s := e.Error()
 	for _, p := range []struct{ sub, tag string }{
+		{"handshake panicked", "panic"},
 		{"without a master secret", "no-master-secret"},
 		{"invalid master secret", "invalid-master-secret"},
 		{"bad record MAC", "bad-record-mac"},
@@ -403,6 +437,9 @@ func (r *Runner[S]) Step(i int, c Conn) Out {
 		c.Cert = "n"
 	}
 	h := r.ops.Handshake(c, r.Client, r.srv[c.Server], r.rnd.U64(), mid)
+	if r.OnHS != nil {
+		r.OnHS(i, h)
+	}
 	o := Out{COk: h.CErr == nil, SOk: h.SErr == nil, CRes: "-", SRes: "-", Len: "-", Suite: "-", Peer: "-", MS: "-", Fresh: "-", SView: "-"}
 	o.Off = r.name(r.ids, "n", h.Off)
 	if h.SawServerHello {
@@ -526,6 +563,10 @@ func (r *Runner[S]) Trace() (ops, outs string) {
 	}
 	var a, b []string
 	for _, e := range r.Client.Log {
+		if e.Decl != "" {
+			a = append(a, e.Decl)
+			continue
+		}
 		if e.Put {
 			a = append(a, "P."+kn(e.Key)+"."+obj(e.Obj))
 			b = append(b, "U")
@@ -536,6 +577,9 @@ func (r *Runner[S]) Trace() (ops, outs string) {
 	}
 	if len(a) == 0 {
 		return "-", "-"
+	}
+	if len(b) == 0 {
+		return strings.Join(a, ","), "-"
 	}
 	return strings.Join(a, ","), strings.Join(b, ",")
 }
@@ -560,6 +604,9 @@ func (r *Runner[S]) HSResults() string {
 	ss := make([]string, len(r.Outs))
 	for i, o := range r.Outs {
 		ss[i] = okStr(o.COk && o.SOk)
+		if strings.Contains(o.Why, "panic") {
+			ss[i] = "panic"
+		}
 	}
 	if len(ss) == 0 {
 		return "-"
